@@ -73,6 +73,13 @@ class UniverseLaws(base.BaseObject):
                 "Given edge_whitelist is of incorrect structure!"
             ) from exc
 
+        # keep our own copy of both levels, so that later changes to the
+        # caller's dictionaries cannot change these (read-only) laws
+        if edge_whitelist is not None:
+            self._edge_whitelist = {
+                t: dict(linkset) for t, linkset in edge_whitelist.items()
+            }
+
         #: whether or not mixed link types are allowed
         #:
         #: TODO: is this functionality covered by edge_whitelist ??
